@@ -4,7 +4,7 @@
    cpu_times_percent, Process.cpu_percent), specification: C07/Spec.v (kernel printer
    k_stat of /proc/stat, tick-level formulas).  Seconds and percentages are exact
    rationals; float rounding is outside the model (compared within one rounding step). *)
-From PV Require Import C07.SpecLife C07.ProofsParse C07.ProofsArith C07.ProofsState C07.ProofsScript C07.ProofsLife.
+From PV Require Import C07.SpecLife C07.ProofsParse C07.ProofsArith C07.ProofsState C07.ProofsScript C07.ProofsLife C07.SpecBlock C07.ProofsBlock.
 Local Open Scope Q_scope.
 
 (* ---- cpu_times(): every /proc/stat the kernel can print (any CPUs, nf >= 7 decimal counters
@@ -277,3 +277,40 @@ Theorem C07_proc_percent_all_sequences : forall clk evs,
   Forall2 (out_eq Qeq) (proc_run clk [] evs) (spec_proc_run clk [] evs).
 Proof. exact proc_run_spec. Qed.
 Print Assumptions C07_proc_percent_all_sequences.
+
+(* ---- Process.cpu_times() / Process.cpu_percent() INSIDE oneshot() / as_dict() /
+   process_iter(attrs=...) blocks.  While a block is open the platform layer keeps the parsed
+   /proc/<pid>/stat record (pb_stat) and the front end keeps cpu_times() (pb_fe); cpu_percent()
+   goes through the platform cpu_times(), which reads that record. *)
+
+(* THE READER INVARIANT: the cached stat record is never modified by a reader -- cpu_times(),
+   cpu_percent() in any form, failing or not, leave it exactly as it is *)
+Theorem C07_stat_cache_never_modified_by_reader : forall clk st ev c,
+  pb_stat st = Some c -> (match ev with BTimes _ | BPercent _ => True | _ => False end) ->
+  pb_stat (fst (pb_step clk st ev)) = Some c.
+Proof. exact stat_cache_never_modified. Qed.
+Print Assumptions C07_stat_cache_never_modified_by_reader.
+
+(* the platform cpu_times() is a pure function of the record it reads: the five counters, each
+   divided by CLOCK_TICKS once *)
+Theorem C07_platform_cpu_times_reads_only : forall clk st f,
+  snd (plat_cpu_times clk st f) = times_of clk (snd (plat_stat st f)).
+Proof. exact plat_cpu_times_pure. Qed.
+Print Assumptions C07_platform_cpu_times_reads_only.
+
+(* every history of block entries/exits (nested too), cpu_times() and cpu_percent() calls on an
+   object: each value is the demanded one (spec_pb_run: inside a block the counters are those of the
+   block's first read; cpu_times() = counters/CLOCK_TICKS; cpu_percent() = 100*delta(utime+stime)/
+   CLOCK_TICKS/delta(wall) since the object's previous call) and the sample kept for the next
+   call -- in particular for a plain call after the block -- is the true one *)
+Theorem C07_block_values_exact : forall clk l,
+  Forall2 (out_eq pbres_eq) (pb_run clk pb_init l) (spec_pb_run clk g_init l).
+Proof. exact block_values_exact. Qed.
+Print Assumptions C07_block_values_exact.
+
+(* BLOCK TRANSPARENCY: when /proc/<pid>/stat does not change while a block is open (const_blocks,
+   decidable), the results are those of the same calls with every block marker removed *)
+Theorem C07_oneshot_block_transparent : forall clk l,
+  const_blocks 0 None l = true -> pb_run clk pb_init l = pb_run clk pb_init (erase l).
+Proof. exact block_transparent. Qed.
+Print Assumptions C07_oneshot_block_transparent.
